@@ -92,3 +92,40 @@ theorem convert_peg (B C a w : Nat) (hw : w ≤ a) (ha : a ≤ C) (hBC : B ≤ C
   nlinarith [A, Bq, Cq, Dq, E1, E2]
 
 end Krp
+
+namespace Krp
+
+/-- `inv r · r ≤ 1` in atomics -/
+theorem decInv_mul_le (r : Nat) : D * D / r * r ≤ D * D := Nat.div_mul_le_self _ _
+
+/-- converting `x ≤ ⌊b·inv/D⌋` units back at price `r` never needs more than `b` -/
+theorem buy_le_available (b x r : Nat) (hx : x ≤ mulDec b (D * D / r)) : mulDec x r ≤ b := by
+  unfold mulDec at *
+  have hD : 0 < D := D_pos
+  have h1 := decInv_mul_le r
+  have h2 : b * (D * D / r) / D * D ≤ b * (D * D / r) := Nat.div_mul_le_self _ _
+  generalize D * D / r = i at *
+  have h3 : x * r / D * D ≤ x * r := Nat.div_mul_le_self _ _
+  -- x·r·D ≤ (b·i/D)·D·r ≤ b·i·r ≤ b·D·D
+  have h4 : x * D ≤ b * i := Nat.le_trans (Nat.mul_le_mul_right D hx) h2
+  have h5 : (x * r / D) * (D * D) ≤ b * (D * D) := by nlinarith
+  exact Nat.le_of_mul_le_mul_right h5 (Nat.mul_pos hD hD)
+
+/-- paying back `⌊amt·inv/D⌋` for `amt = ⌊x·r/D⌋` never exceeds `x` -/
+theorem buy_back_le (x r : Nat) : mulDec (mulDec x r) (D * D / r) ≤ x := by
+  unfold mulDec
+  have hD : 0 < D := D_pos
+  have h1 := decInv_mul_le r
+  generalize D * D / r = i at *
+  have h2 : x * r / D * D ≤ x * r := Nat.div_mul_le_self _ _
+  have h3 : x * r / D * i / D * D ≤ x * r / D * i := Nat.div_mul_le_self _ _
+  have h5 : (x * r / D * i / D) * (D * D) ≤ x * (D * D) := by nlinarith
+  exact Nat.le_of_mul_le_mul_right h5 (Nat.mul_pos hD hD)
+
+theorem mulRatio_le (t a b : Nat) : mulRatio t a (a + b) ≤ t := by
+  unfold mulRatio
+  by_cases h : a + b = 0
+  · rw [h]; simp
+  · exact Nat.div_le_of_le_mul (by nlinarith)
+
+end Krp
